@@ -52,7 +52,8 @@ impl Elem for It {
 /// key = d0 * 2^20 + d1 * 2^10 + d2 with 0 <= d1, d2 < 1024 (d0 signed): comparing [d0, d1, d2, 0]
 /// lexicographically is comparing keys
 fn rank_of(key: i32) -> [i32; 4] {
-    [key >> 20, (key >> 10) & 1023, key & 1023, 0]
+    // (the two low digits are shifted to -512..511: later slots of a real rank are negative for `-begin`, `-end`, `-length`)
+    [key >> 20, ((key >> 10) & 1023) - 512, (key & 1023) - 512, 0]
 }
 
 impl Elem for MatchedItem {
@@ -66,7 +67,7 @@ impl Elem for MatchedItem {
     }
     fn show(&self) -> String {
         let r = self.rank;
-        format!("{}:{}", (r[0] << 20) | (r[1] << 10) | r[2], self.item_idx)
+        format!("{}:{}", (r[0] << 20) | ((r[1] + 512) << 10) | (r[2] + 512), self.item_idx)
     }
 }
 
@@ -186,7 +187,7 @@ fn history<T: Elem>(tac: bool, nosort: bool, ops: &str) -> String {
 }
 
 fn show_rank(r: [i32; 4], idx: u32) -> String {
-    format!("{}:{}", (r[0] << 20) | (r[1] << 10) | r[2], idx)
+    format!("{}:{}", (r[0] << 20) | ((r[1] + 512) << 10) | (r[2] + 512), idx)
 }
 
 /// the same histories one level up: the list widget `Selection` (src/selection.rs) configured through
